@@ -34,9 +34,10 @@ Inductive label :=
 | LSetResult (j : nat)         (* the result / exception is DELIVERED *)
 (* shutdown caller k *)
 | LSdSet (k : nat)             (* the shutdown REQUEST: sets the flag *)
-| LSdAcquire (k : nat)         (* wait=False: takes the lock, snapshots the registry *)
+| LSdAcquire (k : nat)         (* takes the lock (wait=False: and snapshots the registry for its cancel tasks) *)
 | LSdCancel (k j : nat)        (* wait=False: cancel task for job j *)
-| LSdSnap (k : nat)            (* wait=True: snapshots the registry *)
+| LSdSnap (k : nat)            (* wait=True: snapshots the registry (holding the lock) *)
+| LSdRelease (k : nat)         (* wait=True: releases the lock after the snapshot *)
 | LSdJoin (k : nat)            (* wait=True: result() of the next job of the snapshot returns *)
 | LSdRaise (k : nat)           (* shutdown() terminates with an exception (e.g. of a job): must never happen *)
 | LSdReturn (k : nat).         (* shutdown() RETURNS *)
